@@ -13,7 +13,8 @@ LEVEL_TEXT = ("4 generated multi-line scripts and every comment-free, quote-free
               "inserted before/after/between every line: whole-line --, #, /* */ (1, 2, 3 lines, with and without text on the opening "
               "line, indented), and trailing --, /* */ after code, with 12 quote-free texts incl. SQL keywords, commas, parentheses, "
               "semicolons and repeated markers. Entities must equal the comment-free result; every reported comment item must come from "
-              "an inserted comment, in source order.")
+              "an inserted comment, in source order."
+              " Texts containing another comment marker are also used as TRAILING comments; two trailing comments on one line are judged as the single '--' comment they are.")
 LEVEL_NOTE = ("Deviation bound: 1 inserted comment (2 in thorough). Texts containing another comment marker form a separate sub-alphabet "
               "(feature text:other-marker). Comment texts are quote-free, as the property says.")
 RULE = ("case = (script, comment style, text, position[, second comment]); expected entities = result of the script without comments; "
